@@ -27,7 +27,7 @@ Lemma history_Inv : forall n ops, quiet ops (snd (prun ops (empty_pool n))) -> P
 Proof. intros n ops. apply prun_Inv. apply PAll_empty. Qed.
 
 Lemma history_Inv_no_faults : forall n ops, PAll Inv (fst (prun (plain ops) (empty_pool n))).
-Proof. intros n ops. apply prun_refines. apply PAll_empty. Qed.
+Proof. intros n ops. apply prun_Inv_plain. apply PAll_empty. Qed.
 
 (* all reads the public API offers stay inside the array and inside the live range *)
 Lemma reads_inside_storage : forall st, WInv st ->
@@ -148,13 +148,57 @@ Qed.
 
 (* ================================ C07 ================================ *)
 
-Lemma step_refines : forall o P P' r, PAll Inv P -> pstep None o P = (P', r) ->
+Lemma step_refines : forall o P P' r, PAll Inv P -> benign o -> pstep None o P = (P', r) ->
   PAll Inv P' /\ sstep o (absP P) = (absP P', r).
 Proof. exact pstep_refines. Qed.
 
-Lemma history_refines : forall n ops,
+Lemma history_refines : forall n ops, Forall benign ops ->
   srun ops (repeat None n) = (absP (fst (prun (plain ops) (empty_pool n))), snd (prun (plain ops) (empty_pool n))).
-Proof. intros n ops. rewrite <- absP_empty. apply prun_refines. apply PAll_empty. Qed.
+Proof. intros n ops HB. rewrite <- absP_empty. apply prun_refines; auto. apply PAll_empty. Qed.
+
+(* arguments that alias the container: the value is the one the element had when the call started *)
+Lemma aliasing_arguments : forall st k s, Inv st -> live_elem st k = Some s ->
+  nth_error (abs st) k = Some s /\
+  (forall key st' o, emplace None key s st = (st', o) ->
+     match bl_emplace (cap st) (abs st) key s with
+     | Some l => o = Done /\ abs st' = l /\ cap st' = cap st
+     | None => o = Raised /\ st' = st
+     end) /\
+  (forall st' o, append None s st = (st', o) ->
+     match bl_append (cap st) (abs st) s with
+     | Some l => o = Done /\ abs st' = l /\ cap st' = cap st
+     | None => o = Raised /\ st' = st
+     end).
+Proof.
+  intros st k s HI E. rewrite (live_elem_abs filled) in E by auto. split; [exact E|]. split.
+  - intros key st' o. now apply (emplace_refines filled).
+  - intros st' o. now apply (append_refines filled).
+Qed.
+
+Lemma self_range_insert : forall key a b st st' o, Inv st -> self_range_valid st a b = true -> key <= a \/ b <= key ->
+  insert_self_range None key a b st = (st', o) ->
+  match bl_overwrite (cap st) (abs st) key (firstn (b - a) (skipn a (abs st))) with
+  | Some (l, fits) => o = (if fits then Done else Raised) /\ abs st' = l /\ cap st' = cap st
+  | None => o = Raised /\ st' = st
+  end.
+Proof. intros key a b st st' o. apply (insert_self_range_refines filled). Qed.
+
+Lemma self_range_push_back : forall a b st st' o, Inv st -> self_range_valid st a b = true ->
+  push_back_self_range None a b st = (st', o) ->
+  let r := bl_append_range (cap st) (abs st) (firstn (b - a) (skipn a (abs st))) in
+  o = (if snd r then Done else Raised) /\ abs st' = fst r /\ cap st' = cap st.
+Proof. intros a b st st' o. apply (push_back_self_range_refines filled). Qed.
+
+(* a range of the vector itself inserted at a position strictly inside that range is NOT read as it was at the
+   start: [1,2,3], insert(begin()+1, begin(), begin()+2) yields 1,1,1 where the pre-state reading gives 1,1,2 *)
+Lemma self_range_overlap_refuted : exists o P, PAll Inv P /\ ~ benign o /\
+  sstep o (absP P) <> (absP (fst (pstep None o P)), snd (pstep None o P)).
+Proof.
+  exists (OInsertSelfRange 0 1 0 2), [Some (mkfv 3 3 [Filled 1; Filled 2; Filled 3])]. split; [|split].
+  - constructor; [|constructor]. unfold okopt, Inv, abs; simpl. repeat split; auto. repeat constructor.
+  - simpl. lia.
+  - vm_compute. discriminate.
+Qed.
 
 (* a fault plan that is not reached is invisible *)
 Lemma unreached_plan_invisible : forall p o P P' r, pstep p o P = (P', r) -> r <> Faulted -> pstep None o P = (P', r).
@@ -245,7 +289,8 @@ Definition writes (o : op) : list nat :=
   | OMove i j | OMoveAssign i j => [i; j]
   | ONew i _ | ONewFrom i _ _ | ONewList i _ | OCopy i _ | OAssign i _ | OListAssign i _ | OAt i _ | OGet i _
   | OEmplace i _ _ | OEmplaceBack i _ | OInsert i _ | OInsertMove i _ | OPushBack i _
-  | OInsertRange i _ _ | OInsertList i _ _ | OPushBackRange i _ | OPop i | OErase i _ | ODestroy i => [i]
+  | OInsertRange i _ _ | OInsertList i _ _ | OPushBackRange i _ | OPop i | OErase i _ | ODestroy i
+  | OEmplaceAt i _ _ | OEmplaceBackAt i _ | OInsertAt i _ | OPushBackAt i _ | OInsertSelfRange i _ _ _ | OPushBackSelfRange i _ _ => [i]
   end.
 
 Lemma on_obj_frame P i f P' o k : on_obj P i f = (P', o) -> k <> i -> nth_error P' k = nth_error P k.
@@ -268,7 +313,7 @@ Proof.
   - destruct (i =? j); [inversion H; auto|]. destruct (negb (i <? length P)); [inversion H; auto|].
     destruct (pget P j); inversion H; auto. unfold pset. rewrite !nth_error_upd_other by (apply NK; auto). reflexivity.
   - destruct (pget P j); [|inversion H; auto]. eapply on_obj_frame; eauto.
-  - destruct (i =? j); [inversion H; auto|]. destruct (pget P i); [|inversion H; auto].
+  - destruct (pget P i); [|inversion H; auto].
     destruct (pget P j); inversion H; auto. unfold pset. rewrite !nth_error_upd_other by (apply NK; auto). reflexivity.
   - destruct (i <? length P); inversion H; auto. unfold pset. rewrite nth_error_upd_other by (apply NK; auto). reflexivity.
 Qed.
